@@ -20,6 +20,7 @@ device specification (C01).  Clauses of the property:
 -/
 import AnnetModel.Lemmas.AclDiff
 import AnnetModel.Lemmas.Provenance
+import AnnetModel.Lemmas.Pipeline
 
 /-! OBLIGATIONS
 Annet.AclDiff.C02_commands_address_covered
@@ -31,6 +32,9 @@ Annet.AclDiff.C02_acl_diff_ops
 Annet.AclDiff.C02_cant_delete_never_removed
 Annet.AclDiff.C02_outside_untouched_level
 Annet.AclDiff.C02_paths_covered_false
+Annet.AclDiff.C02_no_generator_acl_no_patch
+Annet.AclDiff.C02_empty_filter_no_patch
+Annet.AclDiff.C02_nothing_in_nothing_out
 -/
 
 namespace Annet.AclDiff
@@ -102,5 +106,35 @@ theorem C02_paths_covered_false :
     (match Acl.matchRowToAcl v "undo snmp-agent sys-info contact" acl false with
       | .ok none => true | _ => false) = true := by
   decide
+
+/-! ### from the generators to the patch (`_old_new_per_device` ∘ `_diff_and_patch`) -/
+
+/-- NO OWNER, NO COMMAND: when no selected generator provides an ACL rule for the device (and `--no-acl` is off), whatever the
+device holds and whatever the generators would yield, no diff entry is shown and the patch is empty — for any ACL object,
+rulebook and logic table handed to `_diff_and_patch`. -/
+theorem C02_no_generator_acl_no_patch (v : Acl.Vendor) (sp : Gen.Splitter) (gens : List Gen.GenDef) (exclusive : Bool)
+    (filter : Option (List Acl.RawRule)) (old : Cfg) (r : Gen.OldNew) (hg : ∀ g ∈ gens, g.acl = [])
+    (h : Gen.oldNewFull v sp gens false exclusive filter old = .ok r)
+    (lg : Patch.LogicFn) (pv : Rules.Vendor) (acl : Acl.Rules) (rules : Rules.PRules) (ordering : List Rules.ORule)
+    (res : Api.Result) (hres : deviceModeAcl lg pv v acl rules ordering r.old r.new = .ok res) :
+    res.diff = [] ∧ res.patch.items = [] :=
+  Pipeline.no_generator_acl_no_patch v sp gens exclusive filter old r hg h lg pv acl rules ordering res hres
+
+/-- A requested filter that has no rule: nothing is shown, nothing is sent. -/
+theorem C02_empty_filter_no_patch (v : Acl.Vendor) (sp : Gen.Splitter) (gens : List Gen.GenDef) (noAcl exclusive : Bool)
+    (old : Cfg) (r : Gen.OldNew) (h : Gen.oldNewFull v sp gens noAcl exclusive (some []) old = .ok r)
+    (lg : Patch.LogicFn) (pv : Rules.Vendor) (acl : Acl.Rules) (rules : Rules.PRules) (ordering : List Rules.ORule)
+    (res : Api.Result) (hres : deviceModeAcl lg pv v acl rules ordering r.old r.new = .ok res) :
+    res.diff = [] ∧ res.patch.items = [] :=
+  Pipeline.empty_filter_no_patch v sp gens noAcl exclusive old r h lg pv acl rules ordering res hres
+
+/-- `_diff_and_patch` on two empty configurations succeeds with an empty diff and an empty patch (so the two theorems above
+are not vacuous: the pipeline does not fail there). -/
+theorem C02_nothing_in_nothing_out (lg : Patch.LogicFn) (pv : Rules.Vendor) (av : Acl.Vendor) (acl : Acl.Rules)
+    (rules : Rules.PRules) (ordering : List Rules.ORule) :
+    ∃ res, deviceModeAcl lg pv av acl rules ordering (.mk []) (.mk []) = .ok res ∧ res.diff = [] ∧ res.patch.items = [] := by
+  obtain ⟨res, h⟩ := Pipeline.deviceModeAcl_empty_ok lg pv av acl rules ordering
+  exact ⟨res, h, Pipeline.deviceModeAcl_empty lg pv av acl rules ordering res h⟩
+
 
 end Annet.AclDiff
